@@ -1451,4 +1451,3 @@ func ReplayDeleg(driver, path string, out func(string, ...interface{})) (int, er
 	}
 	return 0, nil
 }
-
